@@ -509,6 +509,7 @@ type FuncContract struct {
 	Calls    map[string][]string // function-valued parameter -> candidate callees
 	Fuel     int
 	Ghost    []string
+	Lifts    []Clause        // `lift lemma(args)`: the lemma (declared `lifted pkg.Func`) is this function's behaviour over its functional abstraction
 	Props    map[string]bool // for pinned blocks
 	Classes  []string
 	File     string
@@ -536,7 +537,7 @@ var clauseKeywords = map[string]bool{
 	"func": true, "cases": true, "requires": true, "ensures": true, "modifies": true,
 	"panics": true, "pure": true, "loop": true, "invariant": true, "decreases": true,
 	"assert": true, "use": true, "let": true, "mode": true, "trusted": true, "assumes": true,
-	"classes": true, "property": true, "inline": true, "coarse": true, "assume": true, "reads": true, "wraps": true, "fuel": true, "unroll": true, "calls": true, "havoc": true, "ghost": true,
+	"classes": true, "property": true, "inline": true, "coarse": true, "assume": true, "reads": true, "wraps": true, "fuel": true, "unroll": true, "calls": true, "havoc": true, "ghost": true, "lift": true,
 }
 
 type rawLine struct {
@@ -667,6 +668,12 @@ func parseContractLines(lines []rawLine, pkg string) ([]*FuncContract, error) {
 			}
 		case "fuel":
 			fmt.Sscanf(rest, "%d", &cur.Fuel)
+		case "lift":
+			c, err := mkClause(rest, l)
+			if err != nil {
+				return nil, err
+			}
+			cur.Lifts = append(cur.Lifts, c)
 		case "wraps":
 			cur.Modifies = append(cur.Modifies, "wraps:"+rest)
 		case "reads":
@@ -786,6 +793,8 @@ type Lemma struct {
 	Requires  []Clause
 	Ensures   []Clause
 	Induction string
+	Step      string // `induction k by P`: hypothesis at k-P (P must be provably >= 1); empty: k-1
+	Lifted    string // non-empty: "pkg.Func" — not proved as a lemma; discharged as `lift` obligations of that function
 	Trusted   string // non-empty: imported (e.g. from Lean) rather than proved here
 	Uses      []Clause
 	Fuel      int
@@ -992,7 +1001,15 @@ func parseSpecItem(text, file string, line int, db *SpecDB) (err error) {
 			case "fuel":
 				fmt.Sscanf(r2, "%d", &lm.Fuel)
 			case "induction":
-				lm.Induction = r2
+				f := strings.Fields(r2)
+				lm.Induction = f[0]
+				if len(f) == 3 && f[1] == "by" {
+					lm.Step = f[2]
+				} else if len(f) != 1 {
+					return fmt.Errorf("%s:%d: expected `induction k [by P]`", file, line)
+				}
+			case "lifted":
+				lm.Lifted = r2
 			case "trusted":
 				lm.Trusted = r2
 			default:
@@ -1005,7 +1022,7 @@ func parseSpecItem(text, file string, line int, db *SpecDB) (err error) {
 }
 
 func joinLemmaClauses(lines []rawLine) []rawLine {
-	kws := map[string]bool{"requires": true, "ensures": true, "induction": true, "trusted": true, "use": true, "fuel": true}
+	kws := map[string]bool{"requires": true, "ensures": true, "induction": true, "trusted": true, "use": true, "fuel": true, "lifted": true}
 	var out []rawLine
 	for _, l := range lines {
 		t := strings.TrimSpace(l.text)
